@@ -107,3 +107,7 @@ func convOK(p string) bool {
 
 var _ = regexp.Compile
 var _ = regexp2.ECMAScript
+
+// VerifSource: exported view of specString for the contracts of other packages - the original pattern
+// text a compiled expression executes (whichever engine was selected).
+func VerifSource(r Regexp) string { return specString(r) }
